@@ -23,7 +23,7 @@ ALPHABET = ["x", "y", "z"]
 # scope model built while rendering
 
 class Scope:
-    __slots__ = ("kind", "bk", "line", "parent", "decls", "name", "top")
+    __slots__ = ("kind", "bk", "line", "parent", "decls", "name", "top", "_children")
 
     def __init__(self, kind, parent, line=0, bk=None, name=None):
         self.kind = kind          # module | function | block
@@ -95,6 +95,9 @@ class Program:
 
     def _scope(self, kind, parent, line=0, bk=None, name=None):
         s = Scope(kind, parent, line, bk, name)
+        s._children = []
+        if parent is not None:
+            parent._children.append(s)
         self.scopes.append(s)
         return s
 
@@ -206,6 +209,11 @@ def use_kind(scope):
     return base + ("-block" if scope.kind == "block" else "")
 
 
+def all_scopes_of(scope):
+    """child scopes registered under a scope (set by Program)"""
+    return getattr(scope, "_children", ())
+
+
 def expected_kinds(d):
     """root-cause qualified kinds of the expected declaration, most specific first; the last one is the plain
     kind (where-kind)."""
@@ -223,6 +231,17 @@ def expected_kinds(d):
     if d.scope.kind == "block":
         if d.scope.bk == "bare":
             out.append("block-let:bare")
+        if d.kind in ("let", "const") and d.scope.bk != "bare":
+            # a bare block is flattened into its parent: its let behaves like an earlier let of that parent
+            first0 = min(ln for ln, _ in d.lines)
+            for anc in d.scope.chain()[1:]:
+                if any(c.kind == "block" and c.bk == "bare" and c.parent is anc and d.name in c.decls
+                       and c.decls[d.name].kind in ("let", "const")
+                       and min(ln for ln, _ in c.decls[d.name].lines) < first0 for c in all_scopes_of(anc)):
+                    out.append("block-let:bare")
+                    break
+                if anc.kind == "function":
+                    break
         if d.kind in ("let", "const"):
             first = min(ln for ln, _ in d.lines)
             for s in d.scope.chain()[1:]:
@@ -585,6 +604,7 @@ def probe_source(tree):
         """-> (lines, hoisted alias lines for the start of the function scope, calls for its end)"""
         pad = "  " * ind
         lines, hoisted, calls = [], [], []
+        decl_funcs = {}
         for s in stmts:
             t = s["t"]
             ln = s.get("_line")
@@ -637,13 +657,18 @@ def probe_source(tree):
                 lines.extend("  " * (ind + 1) + c for c in c2)
                 lines.append(pad + ("}" if style == "decl" else "};"))
                 alias = "__f%d" % v
+                call = "if (typeof %s === 'function') %s(%s);" % (alias, alias, ", ".join(args))
                 if style == "decl":
-                    # hoisted: the function value is there from the start of the scope (the last declaration of
-                    # a name wins); take the alias before any `var name = ...` of the same variable runs
-                    hoisted.append("var %s = %s;" % (alias, s["name"]))
+                    # hoisted: the function value is there from the start of the scope and the LAST declaration
+                    # of a name wins (earlier same-named declarations are unreachable: not called); take the
+                    # alias before any `var name = ...` of the same variable runs
+                    decl_funcs[s["name"]] = ("var %s = %s;" % (alias, s["name"]), call)
                 else:
                     lines.append(pad + "var %s = %s;" % (alias, s["name"]))
-                calls.append("if (typeof %s === 'function') %s(%s);" % (alias, alias, ", ".join(args)))
+                    calls.append(call)
+        for name in decl_funcs:
+            hoisted.append(decl_funcs[name][0])
+            calls.append(decl_funcs[name][1])
         return lines, hoisted, calls
 
     l, h, c = body(tree["body"], 0, True)
